@@ -576,14 +576,14 @@ class ProdParser:
 
                 except ParseError as e:
                     # needed???
+                    # a started production which is incomplete is an error
+                    wellformed = False
+                    self._log.error(f'{name}: {e}: {token!r}')
                     if stopIfNoMoreMatch:  # and token:
                         # print "\t2stopIfNoMoreMatch", e, token, prod
-                        tokenizer.push(token)
+                        # the token is left to the caller
+                        savedTokens.append(token)
                         stopall = True
-
-                    else:
-                        wellformed = False
-                        self._log.error(f'{name}: {e}: {token!r}')
                     break
 
                 else:
